@@ -292,12 +292,16 @@ def c16(run, replay=None):
         else:
             run.violation("find with stdout redirected into the searched directory: listed %r, expected %r (rc %r)" % (listed, want, pr.returncode), dict(script=open(sp).read(), listed=listed))
     # relative roots are rejected
-    rel = C.run_harness("find", [dict(world=world_nodes(('d', 'r', [('f', 'a', 1)])), params="paths: r\n", lookup=False),
-                                 dict(world=world_nodes(('d', 'r', [('f', 'a', 1)])), params="paths: [ROOT/r, ./r]\n", lookup=False)], prepare=prep)
-    for r in rel:
-        if "err" not in r.get("module", {}):
-            run.violation("a relative root was not rejected: %r" % r, dict(implementation=r))
-    run.coverage.update(evaluations=len(cases) + 2, distinct_nontrivial=len(nontrivial),
+    # a relative root ANYWHERE in the list (first, last, between absolute ones; a YAML list or a JSON-list string; roots that
+    # exist from the working directory, so that walking them would succeed): rejected as invalid, by the module and the lookup
+    relw = world_nodes(('d', 'r', [('f', 'a', 1)]))
+    relp = ["paths: r\n", "paths: [ROOT/r, ./r]\n", "paths: [ROOT/r, \".\"]\n", "paths: [ROOT/r, \"..\"]\n", "paths: [\".\", ROOT/r]\n", "paths: [ROOT/r, \".\", ROOT/r/a]\n",
+            "paths: '[\"ROOT/r\", \".\"]'\n", "paths: \".\"\n", "paths: [ROOT/r, ROOT/r, \"./\"]\n"]
+    rel = C.run_harness("find", [dict(world=relw, params=pp, lookup=True) for pp in relp], prepare=prep)
+    for pp, r in zip(relp, rel):
+        if r.get("module", {}).get("err") != "InvalidData" or "err" not in r.get("lookup", {}):
+            run.violation("a relative root was not rejected as invalid (%s): %r" % (pp.strip(), r), dict(params=pp, implementation=r))
+    run.coverage.update(evaluations=len(cases) + len(relp), distinct_nontrivial=len(nontrivial),
                         rule="random trees (depth <= 4, dot names, symlinks to files/dirs/nowhere, sizes around the limits, 1-2 disjoint roots incl. sub-directories) x random parameter combinations "
                              "(file_type, hidden, recurse, 0-2 patterns, 0-1 excludes, size) + trees carrying a `.ignore` file; module and find() lookup both run; compared as sorted lists (so duplicates count); "
                              "non-trivial = distinct cases with a non-empty result",
